@@ -632,10 +632,22 @@ impl Prop for C05 {
 				None
 			}
 		};
+		if out.crashed {
+			// crash + re-open: default account again
+			if let Some(w) = step.wallet() {
+				self.base.remove(&w);
+				self.fresh.remove(&w);
+			}
+		}
 		match &step.op {
 			Op::Mine { .. } | Op::Fork { .. } => {
 				self.base.clear();
 				self.fresh.clear();
+			}
+			Op::Restart { w } => {
+				// a re-opened wallet is on its default account again
+				self.base.remove(w);
+				self.fresh.remove(w);
 			}
 			Op::NewAccount { w, .. } | Op::SetAccount { w, .. } | Op::Scan { w, .. } => {
 				self.base.remove(w);
